@@ -332,6 +332,33 @@ fn if_true_probe(out: &mut Out) {
     }
 }
 
+/// Termination probe: entities are parsed against a schema whose `tags` type is a record nested d deep (the entity itself has
+/// no tags). In builds with debug assertions `EntityTypeDescription::{attr_type,tag_type}` re-check the converted type with
+/// `Type::is_consistent_with`, which used to visit every shared record attribute twice per level: 2^d steps (155 s at d = 32,
+/// found by the thorough tier through the watchdog; repaired in /repo). CPU time doubles per level when the defect is
+/// present and stays in the microseconds otherwise, so a 4-second line at d <= 28 separates the two by five orders of magnitude.
+fn nested_record_type_probe(out: &mut Out) {
+    for d in [16usize, 20, 24, 28] {
+        let mut t = String::from("Long");
+        for _ in 0..d { t = format!("{{a:{t}}}"); }
+        let src = format!("entity Group in [Group] tags Long;\nentity User in [Group] = {{ n?: Long }} tags {t};\naction view appliesTo {{ principal: User, resource: User }};");
+        let Ok((schema, _)) = cedar_policy::Schema::from_cedarschema_str(&src) else { out.count("nested_record_type_probe_schema_rejected"); return; };
+        let c0 = cpu_secs();
+        let r = cedar_policy::Entities::from_json_str("[{\"uid\":{\"type\":\"User\",\"id\":\"a\"},\"attrs\":{},\"parents\":[]}]", Some(&schema));
+        let dc = cpu_secs() - c0;
+        out.count("nested_record_type_probe_runs");
+        if r.is_err() { out.count("nested_record_type_probe_entities_rejected"); }
+        if dc > 4.0 {
+            out.propfail(
+                "schema-based entity parsing takes time exponential in the nesting depth of the schema's record types",
+                &format!("family=schema_cedar input text:{src} ; entities [User::\"a\" without attributes or tags]"),
+                &format!("Entities::from_json_str(.., Some(schema)) took {dc:.1}s of CPU at record nesting depth {d} (doubles per level)"),
+            );
+            return;
+        }
+    }
+}
+
 /// The formatter writes `indent_width` spaces per nesting level into the output string: the output size (and time) is
 /// proportional to an input number. `indentWidth = isize::MAX` through the FFI `format` call therefore never returns
 /// (memory exhaustion). Deterministic check at 2^22.
@@ -581,6 +608,7 @@ fn worker(args: &Args, out: &mut Out, lo: u64, hi: u64) {
         unescape_cases(args.seed, if args.thorough { 40000 } else { 4000 }, out);
         if_true_probe(out);
         indent_probe(out);
+        nested_record_type_probe(out);
     }
     // the distinct-case hashes, for the parent to merge
     let hs: Vec<String> = out.nontrivial.iter().map(|h| h.to_string()).collect();
